@@ -114,6 +114,22 @@ prop("C04", engine="netsim", level="exploration", technique="deterministic two-n
      text="An Accepted new/restart reply exists only after an accepting call of the validator registered for exactly that voucher type; it carries the validator's voucher result and pause decision; the stored channel shows limit and finalisation flag by the time data moves; a request no validator accepted creates no channel, opens no graphsync request and is answered not-accepted (with the rejection's voucher result); no library panic anywhere (generic oracle; D4/D9 were found this way).",
      note="rejected revalidation / restart => Failed + transport closed is covered by the C08/C10 strata and the close oracle of C09")
 
+prop("C05", engine="netsim", level="exploration", technique="deterministic two-node simulation followed by an adversarial phase (stranger peer, role-confused and mutated messages through raw senders on both carriers); non-interference oracle over datastore bytes, event, wire, transport and validator logs",
+     rule=NETRULE + "then, with the channels quiescent (mostly held open by limits/finalisation), 4-12 adversarial messages are injected, each followed by a drain: from a third peer S (own host and graphsync endpoint) and from the legitimate peers' raw endpoints: every message kind with colliding and fresh transfer ids over libp2p and as graphsync request/response extensions, requests on channels the sender did not initiate, responses on channels it initiated, restart requests with one mutated field (base CID, voucher type, voucher, selector kept), restart-existing requests naming foreign / own / terminated channels, and local wrong-role API calls; non-trivial = at least one adversarial message reached its victim",
+     probes=["adv-stranger", "adv-role-confused", "adv-valid-restart", "adv-mutated-restart", "adv-restart-existing", "adv-local-role", "nontrivial"], real=REAL_NET, stubs=STUB_NET + ["adversary -> raw senders (a second graphsync endpoint with the same identity / direct stream writes)"], assumptions=ASSUME,
+     text="After each adversarial message that must be ignored: the victim's durable bytes for every channel, its event stream, its transport call log, its graphsync call log and its validator log are unchanged (apart from the refusal it may send back); well-formed restart requests from the initiator of a non-terminated channel are honoured, mutated ones and ones for terminated channels are refused; restart-existing is honoured only from the counterparty of a channel the receiver initiated; SendVoucher works only on the initiator, SendVoucherResult / UpdateValidationStatus only on the responder.",
+     note="graphsync-carried strangers use RequestRaw so that the node's own outgoing hooks do not see the adversary's request")
+prop("C18", engine="netsim", level="exploration", technique="deterministic simulation: concurrent opens under dense statement-level preemption, successive manager lifetimes on one datastore with tape-chosen clock gaps (including a clock that stands still), duplicate new-requests injected at tape-chosen points of the original channel's life",
+     rule="one evaluation = one seeded run of either (ids) 1-3 manager lifetimes on the same datastore, each issuing 2-6 concurrent OpenPush/OpenPull calls with 50-450 preemption points at gaps of <= 6..200 statements, separated by a clean stop or crash and a clock gap from {0, 1ns, 1us, 1ms, 1s, 1h} - or no gap at all and no simulated time during the opens ('tight'), so that the next manager collides with existing ids; or (duplicates) a two-node transfer run (see C01) in whose adversarial phase the initiator's raw endpoint re-sends the original new-request (libp2p for push, graphsync for pull) at a tape-chosen point; non-trivial = ids of >= 2 successful opens compared, or a duplicate reached the responder",
+     probes=["ids-checked", "ids-across-lifetimes", "open-refused-because-id-exists", "adv-duplicate-new-request", "nontrivial"], real=REAL_NET, stubs=STUB_NET, assumptions=ASSUME + ["a later manager's ids are required to exceed an earlier manager's only when the clock moved on (runs where it stands still check the refusal of colliding ids instead)"],
+     text="All successfully opened channels of a node have distinct transfer ids over all its manager lifetimes; an open that began after another returned has a larger id; every opened channel is listed; channels that existed before later opens keep their creation data, vouchers and progress; an open whose id collides with a stored channel fails and leaves that channel as it was; a duplicate new-request is refused and leaves datastore bytes, event stream, transport and graphsync logs of the existing channel unchanged (D6 was found and fixed this way).",
+     note="")
+prop("C20", engine="netsim", level="exploration", technique="deterministic simulation with statement-level preemption: every library mutex, RWMutex, Once, WaitGroup, channel operation and goroutine start is a scheduling point owned by the simulator; wait-for-graph oracle at quiescence (every API call and every transport / network callback returned; no task parked on a library lock; Manager.Stop with active transfers returns and leaves nothing behind a lock); panics",
+     rule=NETRULE + "C20 strata mix all application operations concurrently (opens, closes, pauses, resumes, restarts, vouchers, validation updates from subscriber callbacks) and, in the stop stratum, call Manager.Stop on one node at a tape-chosen scheduling step or instant while transfers are active, half of the time followed by a new manager on the same datastore; non-trivial = every run",
+     probes=["nontrivial", "both-ongoing-at-quiescence"], real=REAL_NET, stubs=STUB_NET, assumptions=ASSUME + ["data races proper (unsynchronised memory access) are outside a baton scheduler's reach: only their deadlock/lost-update consequences at statement granularity are; see DESIGN for the -race secondary"],
+     text="At quiescence after the settle phase every tracked API call and every callback the environment delivered (stream handler, graphsync hooks and listeners) has returned - otherwise the wait-for chain is followed through lock holders, state-machine waits and errgroup children to its root, which names the violation; Manager.Stop returns within two simulated minutes and one minute later no task of that node waits for a library lock; no library panic.",
+     note="deadlock freedom and call completion are decided; data-race freedom in the Go memory-model sense is not decidable by this technique (said in DESIGN)")
+
 ORDER = ["C%02d" % i for i in range(1, 21)]
 PENDING = {pid: "check under construction in this session (engine not yet registered); not claimed until its quick command runs clean" for pid in ORDER if pid not in P}
 
